@@ -529,7 +529,7 @@ def rule_kind_guard(chk: Check):
             for rest in ([], ['u"y"'], ['"y"'], ['U"y"']):
                 parts = [types.SimpleNamespace(string=t) for t in [tok] + rest]
                 try:
-                    got = bool(constfold.fold_expr(test, {listname: parts}, data_attrs=("string",)))
+                    got = bool(constfold.eval_local_value(fn, test, {listname: parts}, data_attrs=("string",)))
                 except Exception as e:
                     chk.fail("A6-kind-u", "Parser._concat_strings_in_constant:kind", where,
                              f"the guard `{norm_stmt(test)}` that sets kind='u' cannot be evaluated over the string prefixes: {e}")
@@ -629,10 +629,27 @@ class _BlankEnv:
 
     def __init__(self, tokparam, kind, blank, raw, prev):
         self.tokparam, self.kind, self.blank, self.raw, self.prev = tokparam, kind, blank, raw, prev
+        self.locals: dict = {}
+
+    def module_constant(self, name: str):
+        mod = parse_py(repo.TOKENIZER)
+        vals = [st.value for st in mod.body if (isinstance(st, ast.Assign) and len(st.targets) == 1 and isinstance(st.targets[0], ast.Name)
+                                                and st.targets[0].id == name) or
+                (isinstance(st, ast.AnnAssign) and isinstance(st.target, ast.Name) and st.target.id == name and st.value is not None)]
+        if len(vals) != 1:
+            raise AnalysisError(f"is_blank: `{name}` is not a module constant bound once")
+        return vals[0]
 
     def ev(self, e):
         if isinstance(e, ast.Constant):
             return e.value
+        if isinstance(e, ast.Name) and e.id in self.locals:
+            return self.locals[e.id]
+        if isinstance(e, ast.Name) and e.id not in ("self", self.tokparam, "Token"):
+            return self.ev(self.module_constant(e.id))
+        if isinstance(e, ast.Call) and isinstance(e.func, ast.Name) and e.func.id in ("frozenset", "set", "tuple", "list") and len(e.args) == 1 \
+                and not e.keywords:
+            return list(self.ev(e.args[0]))
         if isinstance(e, ast.BoolOp):
             v = None
             for x in e.values:
@@ -686,12 +703,17 @@ def _eval_paths(ps, env):
     """Result of the one feasible path under `env` (paths are mutually exclusive by construction)."""
     for pth in ps:
         ok = True
+        env.locals = {}
         for x in pth:
             if x[0] == "cond":
                 if bool(env.ev(ast.parse(x[1], mode="eval").body)) != x[2]:
                     ok = False
                     break
             elif x[0] == "do":
+                st = ast.parse(x[1]).body[0]
+                if isinstance(st, ast.Assign) and len(st.targets) == 1 and isinstance(st.targets[0], ast.Name):
+                    env.locals[st.targets[0].id] = env.ev(st.value)  # a local of the filter
+                    continue
                 raise AnalysisError(f"is_blank has an effect: {x[1]}")
         if ok:
             kind, val = pth[-1][1], pth[-1][2]
